@@ -378,7 +378,7 @@ package sftp
 //@   ensures 0 <= k && k < len(entries) ==> entries[k] != nil
 //@   loop 1 invariant 0 <= k && k < len(entries) ==> entries[k] != nil
 //@   loop 2 invariant 0 <= k && k < len(entries) ==> entries[k] != nil
-//@   property C20, C16, C03, C05
+//@   property C20, C16, C03, C05, C08
 //@   requires connOK(c)
 //@   update after call (*Client).opendir#1: ghost.rem = 0
 //@   loop 1 ghost rem
@@ -503,11 +503,15 @@ package sftp
 // (a session is established only if the peer's first packet is a VERSION packet carrying protocol version 3)
 
 //@ func (resChanPool).Get
-//@   property C20, C01
-//@   channel global:type:chan_sftp.result invariant m != nil
+//@   channel global:type:chan_sftp.result invariant m != nil && cap(m) >= 1
+//@   ensures cap(result) >= 1
+// (C04 / C03: a reply or a loss notification can be parked in the caller's channel while the caller is still busy
+//  dispatching: neither recv nor putChannel can block on it)
+//@   property C20, C01, C03, C04
 //@   ensures result != nil
 
 //@ func (resChanPool).Put
+//@   requires cap(ch) >= 1
 //@   property C20, C01
 //@   requires ch != nil
 
@@ -768,6 +772,9 @@ package sftp
 //@   modifies nothing
 
 //@ func (*Server).nextHandle
+//@   update after call (*sync.RWMutex).Lock#1: ghost.lkHeld = true
+//@   update after call (*sync.RWMutex).Unlock#*: ghost.lkHeld = false
+//@   ensures !ghost.lkHeld
 //@   property C07, C11
 //@   requires svr.openFiles != nil && f != nil
 //@   requires filesOK(svr)
@@ -781,6 +788,9 @@ package sftp
 //  distinct for the life of the server object; the table is only written under its lock)
 
 //@ func (*Server).closeHandle
+//@   update after call (*sync.RWMutex).Lock#1: ghost.lkHeld = true
+//@   update after call (*sync.RWMutex).Unlock#*: ghost.lkHeld = false
+//@   ensures !ghost.lkHeld
 //@   ensures svr.handleCount == old(svr.handleCount)
 //@   property C07, C11
 //@   requires filesOK(svr)
@@ -1387,6 +1397,9 @@ package sftp
 //@   modifies nothing
 
 //@ func (*RequestServer).nextRequest
+//@   update after call (*sync.RWMutex).Lock#1: ghost.lkHeld = true
+//@   update after call (*sync.RWMutex).Unlock#*: ghost.lkHeld = false
+//@   ensures !ghost.lkHeld
 //@   property C07, C11, C16
 //@   requires reqsOK(rs) && r != nil
 //@   ensures reqsOK(rs)
@@ -1398,6 +1411,9 @@ package sftp
 //@   modifies rs.handleCount, mapof rs.openRequests, r.handle
 
 //@ func (*RequestServer).closeRequest
+//@   update after call (*sync.RWMutex).Lock#1: ghost.lkHeld = true
+//@   update after call (*sync.RWMutex).Unlock#*: ghost.lkHeld = false
+//@   ensures !ghost.lkHeld
 //@   ensures rs.handleCount == old(rs.handleCount)
 //@   property C07, C11, C16
 //@   requires reqsOK(rs)
@@ -1441,7 +1457,8 @@ package sftp
 //@   modifies nothing
 
 //@ func requestFromPacket
-//@   property C10, C07
+//@   ensures result.cancelCtx != nil && result.ctx != nil
+//@   property C10, C07, C11
 //@   requires ctx != nil && pkt != nil && attrsOK(pkt)
 //@   ensures result != nil
 //@   ensures typeis(pkt, *sshFxpOpenPacket) ==> result.Flags == pkt.(*sshFxpOpenPacket).Pflags
@@ -1458,8 +1475,12 @@ package sftp
 //@   ensures typeis(p, *sshFxpReadPacket) ==> offset == int64(p.(*sshFxpReadPacket).Offset)
 
 //@ func fileget
+//@   update after call (io.ReaderAt).ReadAt#1: ghost.rdN = ret0
+//@   update after call (io.ReaderAt).ReadAt#1: ghost.rdEOF = ret1 == io.EOF
+//@   update before call (*state).getReaderAt#1: ghost.rdEOF = false
+//@   ensures typeis(pkt, *sshFxpReadPacket) && typeis(result, *sshFxpStatusPacket) && ghost.rdEOF ==> ghost.rdN == 0
 //@   ensures typeis(pkt, *sshFxpReadPacket) && typeis(result, *sshFxpDataPacket) ==> len(result.(*sshFxpDataPacket).Data) == int(result.(*sshFxpDataPacket).Length)
-//@   property C07, C02, C01, C18, C15
+//@   property C07, C02, C01, C18, C15, C10
 //@   assert before call packetData#1: arg0 == pkt && arg1 == alloc && arg2 == orderID && arg3 == maxTxPacket
 //@   assert before call (io.ReaderAt).ReadAt#1: arg1 == data && arg2 == offset
 //@   requires r != nil && pkt != nil && (alloc == nil || alloc.used != nil) && rsReqType(pkt) && maxTxPacket <= 0x7fffffff
@@ -1474,8 +1495,12 @@ package sftp
 //@   ensures typeis(result, *sshFxpStatusPacket)
 
 //@ func fileputget
+//@   update after call (WriterAtReaderAt).ReadAt#1: ghost.rdN = ret0
+//@   update after call (WriterAtReaderAt).ReadAt#1: ghost.rdEOF = ret1 == io.EOF
+//@   update before call (*state).getWriterAtReaderAt#1: ghost.rdEOF = false
+//@   ensures typeis(pkt, *sshFxpReadPacket) && typeis(result, *sshFxpStatusPacket) && ghost.rdEOF ==> ghost.rdN == 0
 //@   ensures typeis(result, *sshFxpDataPacket) ==> len(result.(*sshFxpDataPacket).Data) == int(result.(*sshFxpDataPacket).Length)
-//@   property C07, C02, C01, C18, C15
+//@   property C07, C02, C01, C18, C15, C10
 //@   assert before call (*sshFxpReadPacket).getDataSlice#1: arg1 == alloc && arg2 == orderID && arg3 == maxTxPacket
 //@   assert before call (WriterAtReaderAt).ReadAt#1: arg2 == int64(p.Offset)
 //@   assert before call (WriterAtReaderAt).WriteAt#1: arg1 == p.Data && arg2 == int64(p.Offset)
@@ -1858,6 +1883,11 @@ package sftp
 //@   ensures f.handle == old(f.handle)
 // (reducer: the offset always equals the end of the last chunk that carried data -- or the initial offset --
 //  and exactly the received bytes are handed to the writer, in the order of the cur/next chain)
+//@   loop 2 ghost wroteIt
+//@   update after recv cur#1: ghost.wroteIt = false
+//@   update after call (io.Writer).Write#1: ghost.wroteIt = true
+//@   assert before call (*bufPool).Put#1: arg1 == packet.b && (len(packet.b) == 0 || ghost.wroteIt)
+// (C01: a chunk buffer goes back to the pool only after its bytes were handed to the destination)
 
 // ---------------------------------------------------------------------------
 // C12: File keeps os.File's offset and closed-state semantics
@@ -1941,6 +1971,8 @@ package sftp
 //@   ensures old(f.handle) == "" ==> result == os.ErrClosed && ghost.lastID == old(ghost.lastID)
 
 //@ func (*File).stat
+//@   assert before call (*Client).fstat#1: arg1 == f.handle
+// (C12: the size behind Seek(.., io.SeekEnd) and Stat is that of the open handle, not of whatever now lives at the path)
 //@   property C12, C20
 //@   results fi, err
 //@   requires fileOK(f)
@@ -1950,6 +1982,7 @@ package sftp
 //@ ghost var dOff int64
 
 //@ func (*File).readFromWithConcurrency
+//@   assert before call (*sync.WaitGroup).Add#1: arg1 >= 1
 //@   update after make errCh#1: ghost.errOpen = true
 //@   loop 2 ghost errOpen
 //@   update after recv errCh#1: ghost.errOpen = ret1
@@ -1973,6 +2006,11 @@ package sftp
 //  offset, which is never below the starting offset)
 
 //@ func (*File).readFromWithConcurrency$1
+//@   loop 1 ghost cnt64
+//@   update after call io.ReadFull#1: ghost.cnt64 = ghost.cnt64 + int64(ite(ret0 > 0, ret0, 0))
+//@   loop 1 invariant read == old(read) + ghost.cnt64 - old(ghost.cnt64)
+//@   ensures read == old(read) + ghost.cnt64 - old(ghost.cnt64)
+// (C13: whichever way the feeder stops, `read` is the number of bytes it took from the source)
 //@   property C01, C12, C13, C20, C03
 //@   requires fileOK(f) && r != nil && f.offset >= 0 && f.offset <= 0x3fffffffffffffff
 //@   requires attr(workCh, lo) == f.offset && attr(errCh, lo) == f.offset
@@ -2088,10 +2126,15 @@ package sftp
 //@   modifies nothing
 
 //@ func (*conn).Close
+//@   assert before call (io.WriteCloser).Close#1: locked(&c.Mutex)
 //@   property C07, C04
 //@   requires c != nil && c.WriteCloser != nil
 
 //@ func (*clientConn).Close
+//@   update before call (*conn).Close#1: ghost.ccWaited = false
+//@   update after call (*sync.WaitGroup).Wait#1: ghost.ccWaited = true
+//@   ensures ghost.ccWaited
+// (C04: Close returns only after the receiver goroutine has finished, whatever closing the transport returned)
 //@   property C07, C04
 //@   requires c != nil && c.WriteCloser != nil
 
@@ -2221,6 +2264,7 @@ package sftp
 //@ ghost var ctlJoined bool
 
 //@ func (*packetManager).drain
+//@   assert before select#1: arg0 == s.requests && arg1 == s.responses
 //@   property C02
 //@   requires pmOK(s)
 //@   loop 1 invariant pmOK(s)
@@ -2230,6 +2274,7 @@ package sftp
 // (returns only through the default case -- both channels empty -- and after a last maybeSendPackets)
 
 //@ func (*packetManager).controller
+//@   assert before select#1: arg0 == s.requests && arg1 == s.responses && arg2 == s.fini
 //@   property C02
 //@   requires pmOK(s)
 //@   loop 1 invariant pmOK(s)
@@ -2245,6 +2290,11 @@ package sftp
 //@   modifies nothing
 
 //@ ghost var wfail bool
+//@ ghost var lkHeld bool
+//@ ghost var wroteIt bool
+//@ ghost var ccWaited bool
+//@ ghost var rdN int
+//@ ghost var rdEOF bool
 //@ ghost var gSize int64
 //@ ghost var gMode uint32
 //@ ghost var wTaken int
@@ -2476,3 +2526,11 @@ package sftp
 //@   property C05
 //@   assert before call strings.ContainsAny#1: arg0 == path && arg1 == "\\*?["
 // (the magic characters of a glob pattern are exactly those of package path: backslash, star, question mark, bracket)
+
+//@ func context.WithCancel
+//@   trusted
+//@   results ctx, cancel
+//@   ensures ctx != nil && cancel != nil
+//@   modifies nothing
+
+// (C10 / C01: bytes a handler's ReadAt delivered together with io.EOF reach the client as data; EOF alone is a status)
